@@ -298,9 +298,22 @@ def run(ctx):
                     ev = [run_iter_long(obj, Bb, pat, K, tail, bitlen, True)]
                     if q == 0:                                                      # the same as a continuation of whole blocks + a final piece, on a fresh object
                         obj2, _ = make(s, *var)
-                        ev2 = [run_iter_long(obj2, Bb, pat, K, b'', None, False), run_iter_long(obj2, Bb, pat, 0, tail + content(rnd, 3 if s != 'none' else 0, 0), None, True)]
+                        ev2 = [run_iter(obj2, content(rnd, Bb * (K % 3), 0), None, False),                        # a short piece first (none, one or two blocks), then the long continuation, then the final piece
+                               run_iter_long(obj2, Bb, pat, K, b'', None, False), run_iter_long(obj2, Bb, pat, 0, tail + content(rnd, 3 if s != 'none' else 0, 0), None, True)]
                         traces.append(dict(sch=sch, ev=ev2, scen=dict(kind='long continuation + final', scheme=s, K=K)))
                     traces.append(dict(sch=sch, ev=ev, scen=dict(kind='long message', scheme=s, K=K, res=res, bo=bo)))
+    # many calls on one object: 40 continuation pieces (one block, now and then none or two), the final piece, remove; reset; a second, shorter epoch
+    for q, s in enumerate(SCHEMES):
+        var = variants(s, False)[q % len(variants(s, False))]; obj, sch = make(s, *var); Bb = sch['B']; ev = []; stream = b''
+        for epoch, ncont in enumerate((40, 3)):
+            for j in range(ncont):
+                e = run_iter(obj, content(rnd, Bb * (1 if j % 6 else (j // 6) % 3), j % 3), None, False); ev.append(e)
+                stream += b''.join(bytes(x) for x in e['blocks'])
+            e = run_iter(obj, content(rnd, (Bb if s == 'none' else Bb // 2 + 1 + q % 3), 0), None, True); ev.append(e)
+            stream += b''.join(bytes(x) for x in e['blocks'])
+            if len(stream) < 6000: ev.append(run_remove(obj, stream))
+            obj.reset(); ev.append(dict(op='reset')); stream = b''
+        traces.append(dict(sch=sch, ev=ev, scen=dict(kind='many calls on one object', scheme=s)))
     # generators created up-front and consumed later, in order: each call takes effect when it is consumed
     for s in SCHEMES:
         var = variants(s, False)[-1]; obj, sch = make(s, *var); Bb = sch['B']
